@@ -13,8 +13,12 @@ type checkDef struct {
 }
 
 var registry = map[string]checkDef{
+	"C02": {"exploration", C02},
 	"C03": {"exploration", C03},
+	"C05": {"exploration", C05},
+	"C06": {"exploration", C06},
 	"C14": {"exploration", C14},
+	"C17": {"exploration", C17},
 }
 
 // Main runs one check and returns the process exit code.
